@@ -4,7 +4,8 @@ EXTENDS Integers, Sequences, TLC, Json
 Positions == <<"serial-write", "fstring-fragment", "lcd-text", "variable", "concatenation", "list-item", "comparison", "function-argument">>
 (* character codes: every printable ASCII character, the escapes, and a few non-ASCII code points *)
 Codes == [n \in 1..95 |-> 31 + n] \o <<9, 10, 13, 92, 34, 39, 37, 233, 252, 8364, 28450, 128512>>
-Specials == <<"trigraph-??/", "percent-d", "backslash-n-text", "quote-pair", "empty", "long-80", "leading-space", "brace-pair">>
+Specials == <<"trigraph-??/", "percent-d", "backslash-n-text", "quote-pair", "empty", "long-80", "leading-space", "brace-pair",
+              "backslash-quote", "backslash-end", "quote-backslash", "double-backslash-quote">>
 VARIABLES pos, code, done
 Init == pos \in 1..Len(Positions) /\ code \in 1..(Len(Codes) + Len(Specials)) /\ done = FALSE
 Next == done = FALSE /\ done' = TRUE /\ UNCHANGED <<pos, code>>
